@@ -131,6 +131,36 @@ def non_carrier_programs():
     return progs
 
 
+def default_tail_templates():
+    """tail self-calls that leave defaulted parameters out (none, some, all of them): still tail calls - no depth is
+    consumed, the recursion limit bounds them - and the omitted parameters take their defaults, in order"""
+    PD = lambda n, d: {"n": n, "ty": "int", "hasdef": True, "def": I(d)}
+    stop = OP("le", V("n"), I(0))
+    T = []
+    T.append(("def1_omit", [FN("t", [P("n", "int"), PD("step", 1)], "int", C("if", [stop, V("n"), C("t", [OP("sub", V("n"), V("step"))])]))], lambda n: C("t", [I(n)])))
+    T.append(("def1_pass", [FN("t", [P("n", "int"), PD("step", 1)], "int", C("if", [stop, V("n"), C("t", [OP("sub", V("n"), V("step")), V("step")])]))], lambda n: C("t", [I(n), I(2)])))
+    T.append(("def2_some", [FN("t", [P("n", "int"), PD("step", 1), PD("base", 100)], "int",
+                               C("if", [stop, V("base"), C("t", [OP("sub", V("n"), V("step")), V("step")])]))], lambda n: C("t", [I(n), I(2)])))
+    T.append(("def2_none", [FN("t", [P("n", "int"), PD("step", 1), PD("base", 100)], "int",
+                               C("if", [stop, OP("add", V("base"), V("step")), C("t", [OP("sub", V("n"), I(1))])]))], lambda n: C("t", [I(n), I(5), I(7)])))
+    T.append(("def2_all", [FN("t", [P("n", "int"), PD("step", 1), PD("base", 100)], "int",
+                              C("if", [stop, OP("add", V("base"), V("step")), C("t", [OP("sub", V("n"), I(1)), OP("add", V("step"), I(1)), V("base")])]))],
+              lambda n: C("t", [I(n)])))
+    T.append(("def3_mid", [FN("t", [P("n", "int"), PD("a", 3), PD("b", 5), PD("c", 7)], "int",
+                              C("if", [stop, OP("add", OP("mul", V("a"), I(100)), OP("add", OP("mul", V("b"), I(10)), V("c"))), C("t", [OP("sub", V("n"), I(1)), V("b")])]))],
+              lambda n: C("t", [I(n), I(1), I(2), I(4)])))
+    return T
+
+
+def default_tail_programs():
+    progs = []
+    for name, decls, call in default_tail_templates():
+        for n in (0, 1, 2, 3, 6):
+            for ci, lim in enumerate([{}, {"depth": 3}, {"rec": max(0, n - 1)}, {"rec": n}, {"depth": 3, "rec": n + 1}]):
+                progs.append(prog("%s.n%d.c%d" % (name, n, ci), decls, call(n), lim, "-"))
+    return progs
+
+
 def error_arg_programs(limits=True):
     progs = []
     for name, decls, call in error_arg_templates():
@@ -159,7 +189,7 @@ def run(chk, tier, seed):
             confs.append({"depth": 4, "rec": max(0, n - 1)})
             for ci, lim in enumerate(confs):
                 progs.append(prog("%s.n%d.c%d" % (name, n, ci), decls, call(n), lim, closed(n)))
-    progs += error_arg_programs() + non_carrier_programs()
+    progs += error_arg_programs() + non_carrier_programs() + default_tail_programs()
     cases, r = corecheck.run_core(chk, progs, "c07-small", limits_of=corecheck.xv_limits)
     # design check on the model: with no limits the machine (with trampoline) returns the closed form
     for p in progs:
